@@ -784,6 +784,14 @@ func ruleRetryLoop(c *core.Ctx, rule, fname, method string) {
 			read, _ = call.(*ssa.Call)
 		}
 	}
+	loopFn, viaStep := fn, false
+	if read == nil {
+		// the loop in a private function that is handed the transfer as a function value:
+		// return transferN("read", length, func(done int) (int, error) { return r.Read(buf[done:]) })
+		if l, stepCall, lenParam, ok := loopThroughStep(c, fn, method); ok {
+			loopFn, read, length, viaStep = l, stepCall, lenParam, true
+		}
+	}
 	if read == nil {
 		c.Undecided(rule, "type/basic."+fname, fn.Pos(), "unrecognised shape: no "+method+" call on the stream and no delegation to io.ReadFull")
 		return
@@ -811,8 +819,13 @@ func ruleRetryLoop(c *core.Ctx, rule, fname, method string) {
 		if core.Canon(other) == nRead {
 			other = acc.Y
 		}
-		if sl, ok := core.Canon(read.Call.Args[0]).(*ssa.Slice); ok && sl.Low != nil && core.Canon(sl.Low) == core.Canon(other) && sl.High == nil {
-			if core.Canon(sl.X) == ssa.Value(fn.Params[1]) {
+		if viaStep {
+			// the step is handed the offset; that it transfers buf[offset:] was checked on the literal
+			if len(read.Call.Args) == 1 && core.Canon(read.Call.Args[0]) == core.Canon(other) {
+				okAcc = true
+			}
+		} else if sl, ok := core.Canon(read.Call.Args[0]).(*ssa.Slice); ok && sl.Low != nil && core.Canon(sl.Low) == core.Canon(other) && sl.High == nil {
+			if core.Canon(sl.X) == ssa.Value(loopFn.Params[1]) {
 				okAcc = true
 			}
 		}
@@ -845,7 +858,7 @@ func ruleRetryLoop(c *core.Ctx, rule, fname, method string) {
 		h    *ssa.Function
 	}
 	forwarded := map[*ssa.Return]fwd{}
-	for _, ret := range core.Returns(fn) {
+	for _, ret := range core.Returns(loopFn) {
 		if successReturn(ret) || len(ret.Results) == 0 {
 			continue
 		}
@@ -853,7 +866,7 @@ func ruleRetryLoop(c *core.Ctx, rule, fname, method string) {
 		if cr == nil {
 			continue
 		}
-		if h := cr.Call.StaticCallee(); h != nil && isPrivateHelper(c, h) && len(h.Blocks) > 0 && h.Pkg == fn.Pkg && h.Signature.Results().Len() == 1 {
+		if h := cr.Call.StaticCallee(); h != nil && isPrivateHelper(c, h) && len(h.Blocks) > 0 && h.Pkg == loopFn.Pkg && h.Signature.Results().Len() == 1 {
 			forwarded[ret] = fwd{cr, h}
 		}
 	}
@@ -888,11 +901,11 @@ func ruleRetryLoop(c *core.Ctx, rule, fname, method string) {
 		}
 	}
 	ok := true
-	for _, ret := range core.Returns(fn) {
-		if successReturn(ret) && !core.Guarded(fn, ret, complete) {
+	for _, ret := range core.Returns(loopFn) {
+		if successReturn(ret) && !core.Guarded(loopFn, ret, complete) {
 			ok = false
 		}
-		if f, isF := forwarded[ret]; isF && !core.Guarded(fn, ret, complete) {
+		if f, isF := forwarded[ret]; isF && !core.Guarded(loopFn, ret, complete) {
 			for _, hr := range core.Returns(f.h) {
 				if successReturn(hr) && !inHelper(f, hr, "complete") {
 					ok = false
@@ -900,7 +913,7 @@ func ruleRetryLoop(c *core.Ctx, rule, fname, method string) {
 			}
 		}
 	}
-	c.Check(ok, rule, "type/basic."+fname+"/nil-only-when-complete", fn.Pos(), "nil is returned only across size == length (or !(size < length))",
+	c.Check(ok, rule, "type/basic."+fname+"/nil-only-when-complete", loopFn.Pos(), "nil is returned only across size == length (or !(size < length))",
 		fname+" can return nil although fewer than length bytes were transferred: a short read/write goes unnoticed (truncated input accepted / message cut on the wire)")
 	// error only if short or not EOF; "short" must be established on the size
 	// updated with this iteration's count (the loop condition tested the old size)
@@ -909,11 +922,11 @@ func ruleRetryLoop(c *core.Ctx, rule, fname, method string) {
 	isErr := func(v ssa.Value) bool { return core.Canon(v) == errV }
 	notEOF := core.Ne(isErr, isEOFValue)
 	ok = true
-	for _, ret := range core.Returns(fn) {
+	for _, ret := range core.Returns(loopFn) {
 		if successReturn(ret) {
 			continue
 		}
-		if core.Guarded(fn, ret, core.AnyOf(short, notEOF)) {
+		if core.Guarded(loopFn, ret, core.AnyOf(short, notEOF)) {
 			continue
 		}
 		if f, isF := forwarded[ret]; isF {
@@ -927,7 +940,7 @@ func ruleRetryLoop(c *core.Ctx, rule, fname, method string) {
 		}
 		ok = false
 	}
-	c.Check(ok, rule, "type/basic."+fname+"/eof-with-data", fn.Pos(), "an error is returned only if the read is short or the stream error is not io.EOF",
+	c.Check(ok, rule, "type/basic."+fname+"/eof-with-data", loopFn.Pos(), "an error is returned only if the read is short or the stream error is not io.EOF",
 		fname+" reports an error although all bytes were transferred, when the last fragment comes together with io.EOF: a complete message at end of stream is rejected")
 	// the stream is asked again only after a call that reported no error: an error that
 	// comes with data and is not repeated (io.Reader promises no repetition) is otherwise
@@ -972,4 +985,100 @@ func lastFieldStore(fn *ssa.Function, fa *ssa.FieldAddr, before ssa.Instruction)
 		}
 	}
 	return best
+}
+
+// loopThroughStep: fn is `return L(…, length, …, func(done int) (int, error) {
+// return stream.<method>(buf[done:]) })` with L a private function of the
+// package that calls the function value it was given, once, in its loop.
+// Returns L, that call, and L's parameter receiving fn's length.
+func loopThroughStep(c *core.Ctx, fn *ssa.Function, method string) (*ssa.Function, *ssa.Call, ssa.Value, bool) {
+	rets := core.Returns(fn)
+	if len(rets) != 1 || len(rets[0].Results) != 1 || len(fn.Params) != 3 {
+		return nil, nil, nil, false
+	}
+	cr, _ := core.CallResult(core.Canon(core.RetVal(rets[0], 0)))
+	if cr == nil {
+		return nil, nil, nil, false
+	}
+	l := cr.Call.StaticCallee()
+	if l == nil || !isPrivateHelper(c, l) || l.Pkg != fn.Pkg || len(l.Blocks) == 0 {
+		return nil, nil, nil, false
+	}
+	var lenParam, stepParam ssa.Value
+	for i, a := range cr.Call.Args {
+		if i >= len(l.Params) {
+			break
+		}
+		if core.Canon(a) == ssa.Value(fn.Params[2]) {
+			lenParam = l.Params[i]
+		}
+		mc, ok := core.Canon(a).(*ssa.MakeClosure)
+		if !ok {
+			continue
+		}
+		g, _ := mc.Fn.(*ssa.Function)
+		if g == nil || len(g.Params) != 1 || len(g.Blocks) != 1 {
+			return nil, nil, nil, false
+		}
+		// the literal: one invoke of method on the captured stream with buf[param:], results handed back
+		var tr *ssa.Call
+		for _, call := range core.Calls(g) {
+			cc := call.Common()
+			if cc.IsInvoke() && cc.Method.Name() == method {
+				if tr != nil {
+					return nil, nil, nil, false
+				}
+				tr, _ = call.(*ssa.Call)
+			} else {
+				return nil, nil, nil, false
+			}
+		}
+		if tr == nil {
+			return nil, nil, nil, false
+		}
+		bound := func(v ssa.Value) ssa.Value {
+			v = core.Canon(v)
+			if fv, ok := v.(*ssa.FreeVar); ok {
+				if b := core.FreeVarBinding(fv); b != nil {
+					return core.Canon(b)
+				}
+			}
+			return v
+		}
+		if bound(tr.Call.Value) != ssa.Value(fn.Params[0]) {
+			return nil, nil, nil, false
+		}
+		sl, ok := core.Canon(tr.Call.Args[0]).(*ssa.Slice)
+		if !ok || sl.High != nil || sl.Low == nil || core.Canon(sl.Low) != ssa.Value(g.Params[0]) || bound(sl.X) != ssa.Value(fn.Params[1]) {
+			return nil, nil, nil, false
+		}
+		gr := core.Returns(g)
+		if len(gr) != 1 || len(gr[0].Results) != 2 {
+			return nil, nil, nil, false
+		}
+		for k := 0; k < 2; k++ {
+			e, ok := core.Canon(gr[0].Results[k]).(*ssa.Extract)
+			if !ok || e.Tuple != ssa.Value(tr) || e.Index != k {
+				return nil, nil, nil, false
+			}
+		}
+		stepParam = l.Params[i]
+	}
+	if lenParam == nil || stepParam == nil {
+		return nil, nil, nil, false
+	}
+	var stepCall *ssa.Call
+	for _, call := range core.Calls(l) {
+		cc := call.Common()
+		if !cc.IsInvoke() && cc.StaticCallee() == nil && core.Canon(cc.Value) == stepParam {
+			if stepCall != nil {
+				return nil, nil, nil, false
+			}
+			stepCall, _ = call.(*ssa.Call)
+		}
+	}
+	if stepCall == nil {
+		return nil, nil, nil, false
+	}
+	return l, stepCall, lenParam, true
 }
